@@ -71,6 +71,11 @@ RENDER_SQL = [
     "create table t (a int, b text)",
     "select `order`, `User Name`, `MixedCase` from `select` where `group` = 1",
     "update `table` set `key` = 1 where `User Name` = 'x'",
+    # the same object named in several statements with different definitions (process-wide registries keyed by name)
+    "create table t (c int, d text, e int)",
+    "create or replace table t (x int)",
+    "drop table t",
+    "select c, d from t",
 ]
 RENDER_DIALECTS = ['mysql', 'postgresql', 'sqlite', 'mssql', 'oracle']
 RENDER_SQL_CASTS = ["select cast(a as float), cast(a as int), cast(a as text) from t",
